@@ -96,8 +96,8 @@ def gen_lines(rng, build, reps, which='C10'):
                         lines.append('%s "%s"' % (op, dec[rep] if rep < len(dec) else str(rng.bits(rng.below(500) + 1))))
     return lines
 
-VO = ['Props/C10.vo']
-FILES = ['Props/C10.v', 'Proofs/FieldLemmas.v', 'Base/ZpField.v']
+VO = ['Props/C10.vo', 'Tie/FieldPower.vo']
+FILES = ['Props/C10.v', 'Proofs/FieldLemmas.v', 'Base/ZpField.v', 'Tie/FieldPower.v']
 
 def predicate_search(ctx, build, lines, hout, which):
     """property predicate on the implementation: compare every arithmetic result with Python integer arithmetic"""
